@@ -87,8 +87,10 @@ def gen_cases(d, by_name, rng, tier, has_builder=False):
                 scen.append((fm, [('G', f['name'], 0)]))
                 scen.append((m ^ fm, [('G', f['name'], 0)]))
             if 'w' in f['acc']:
-                scen.append((m, [('W', f['name'], 0, 0), ('R',)]))
-                scen.append((0, [('S', f['name'], 0, (1 << n) - 1), ('R',)]))
+                vals = values_for(rng, f, by_name)      # for an enum-typed field: discriminants that exist
+                v_lo, v_hi = (0, (1 << n) - 1) if f['ty']['k'] != 'custom' else (min(vals), max(vals))
+                scen.append((m, [('W', f['name'], 0, v_lo), ('R',)]))
+                scen.append((0, [('S', f['name'], 0, v_hi), ('R',)]))
         return scen
     exhaustive_get = W <= (5 if quick else 7)
     exhaustive_set = W <= (3 if quick else 4)
